@@ -95,6 +95,12 @@ def gen_plan(rng, family):
             main.append(["resize", rng.choice([1, 2, 3])])
         if rng.random() < 0.3:
             plan["threads"].append([["resize", rng.choice([1, 2, 3])], ["submit", "value"]])
+        if rng.random() < 0.12:
+            # a shrink by more workers than the call queue has slots (2 * cpu_count() + 1 = 5 in the simulation)
+            plan["workers"] = rng.choice([7, 8])
+            plan["timeout"] = 10
+            plan["kill_budget"] = 0
+            plan["threads"] = [[["submit", "value"]] * rng.randint(0, 2) + [["resize", 1], ["submit", "value"]]]
     elif family == "reuse":                     # C09: histories of factory calls, breakages, shutdowns, from 1..3 threads
         plan["reusable"] = True
         plan["timeout"] = 10
@@ -221,7 +227,7 @@ def make_program(plan):
                     t_before = sum(1 for c in env.kern.choices if c[0] in ("timeout", "kill") and (len(c) < 3 or c[2] != "sleep"))
                     ex = env.reusable(act[1], timeout=plan["timeout"])
                     t_after = sum(1 for c in env.kern.choices if c[0] in ("timeout", "kill") and (len(c) < 3 or c[2] != "sleep"))
-                    env.notes["last_resize"] = (act[1], sorted(ex._processes), ex._flags.broken is not None,
+                    env.notes["last_resize"] = (act[1], sorted(dict.copy(ex._processes)), ex._flags.broken is not None,
                                                 started and ex is prev, t_after - t_before)
                 elif op == "get":
                     _, mw, tmo, reuse, kill = act
@@ -526,6 +532,11 @@ def analyze(plan, r):
         if (not broken and same_started and faults == 0 and worker_timeouts == 0 and len(pids) != want
                 and len(plan["threads"]) == 1):
             add(["C10", "C09"], "wrong-size", f"resize-wrong-size want[{want}] got[{len(pids)}] ctx[{ctx}]")
+    # 9a. get_reusable_executor / _resize raised on a healthy pool
+    if fam in ("resize", "reuse") and not kills and not fatal_kinds:
+        for op, ename, msg in notes.get("api_errors", []):
+            if op in ("resize", "get") and ename not in ("ValueError",):
+                add(["C10", "C09"], "resize-raised", f"resize-raised[{ename}] ctx[{ctx}]", msg)
     # 9b. the factory (C09)
     if fam == "reuse":
         last_id = -1
